@@ -5,7 +5,7 @@ import json, os, shutil, subprocess, sys, tempfile, re
 
 pid, n = sys.argv[1], sys.argv[2]
 checks = [pid] + sys.argv[3:]
-src = f"/tmp/seed/{pid}/out"
+src = f"{os.environ.get('SEED_DIR', '/tmp/seed')}/{pid}/out"
 patch, demo, meta = f"{src}/patch{n}.diff", f"{src}/demo{n}.py", f"{src}/meta{n}.json"
 dst = tempfile.mkdtemp(prefix="ing-", dir="/tmp")
 clean = tempfile.mkdtemp(prefix="ingc-", dir="/tmp")
@@ -35,7 +35,7 @@ try:
         if q.returncode == 2:
             print(q.stderr[-800:])
     if ok:
-        out = f"/verif/seeded/{pid}-{n}"
+        out = f"/verif/seeded/{pid}-{int(n) + int(os.environ.get('SEED_OFFSET', 0))}"
         os.makedirs(out, exist_ok=True)
         shutil.copy(patch, out + "/patch.diff")
         shutil.copy(demo, out + "/demo.py")
